@@ -8,6 +8,13 @@ ROOT = os.path.dirname(os.path.dirname(os.path.abspath(__file__)))
 
 # id -> (category, technique, text, note, design_ref)
 CHECKS = {
+    "C08": (
+        "exploration",
+        "by-construction oracle over typed document pieces; CSS/JS strings taken from the implementation on a canonical document; type-preservation and middleware pass-through monitors",
+        "150k (quick) / 2M (thorough) documents assembled from text (non-ASCII, look-alike tags/markers/placeholders), </head> / </body> in any order and whitespace/case variants, placeholders in every emitted form and markers of real rendered components are pushed through render_dependencies (str, SafeString, UTF-8 and latin-1 bytes; document and fragment) and the middleware; the output must equal the pieces minus markers/placeholders with the generated tags at the documented positions, with the input type preserved; non-HTML and streaming responses must come back untouched.",
+        "Trusts the piece-wise construction (a guard regenerates documents whose concatenation forms sensitive substrings across piece boundaries); marker comments always name registered, rendered components.",
+        "DESIGN.md §2 C08",
+    ),
     "C15": (
         "exploration",
         "history + executable dict model: exhaustive mutator sequences on real ComponentRegistry/Library, all observers after every step",
